@@ -87,7 +87,7 @@ let run_case (c : case) =
   let st = ref h_init in
   let pst = ref (Some PL.ph_init) in      (* None: shadow switched off for this case *)
   let dead = ref false in
-  let nops = L.length (L.filter (fun w -> match w with ("keys" | "dumpevery" | "cmpmode") :: _ -> false | _ -> true) c.lines) in
+  let nops = L.length (L.filter (fun w -> match w with ("keys" | "dumpevery" | "cmpmode" | "swapobj") :: _ -> false | _ -> true) c.lines) in
   let i = ref 0 in
   L.iter (fun w ->
     if not !dead then
@@ -95,6 +95,7 @@ let run_case (c : case) =
     | "keys" :: ks -> keys := Array.append !keys (Array.of_list (L.map z_of_string ks))
     | ["dumpevery"; n] -> every := max 1 (int_of_string n)
     | "cmpmode" :: _ -> ()      (* only the sign of a comparison is inspected *)
+    | "swapobj" :: _ -> ()      (* the driver moves the heap between two objects: contents unchanged *)
     | _ ->
       let key n = let i = int_of_nat n in if i < Array.length !keys then !keys.(i) else BinNums.Z0 in
       incr i;
